@@ -1,6 +1,8 @@
-(* RDP / RamerDouglasPeucker: subsequence, safety (for epsilon^2 >= 0), the first vertex is always kept, the last one
-   is kept when no earlier vertex coincides with it, and the two refutations (un-flagged end point). *)
-From Coq Require Import ZArith List Bool Lia Arith Floats.
+(* RDP / RamerDouglasPeucker (as repaired: `while (end > begin && path[begin] == path[end]) --end; flags[end] = true;`):
+   subsequence, safety (for epsilon^2 >= 0), both end vertices are always kept, and the distance bound: every removed
+   vertex is within epsilon (the code's own distance function and comparison) of the line through the nearest kept
+   vertices before and after it. *)
+From Coq Require Import ZArith List Bool Lia Arith Floats Wf_nat.
 From Clip Require Import base.Geom base.FloatModel model.PathUtils proofs.PathUtilsBase proofs.PathUtilsFlags
   proofs.PathUtilsTrim proofs.PathUtilsSimplify.
 Import ListNotations.
@@ -12,6 +14,40 @@ Proof.
   destruct fl as [|f fl]; [reflexivity|].
   unfold select in *. cbn [map combine filter snd].
   destruct f; cbn [negb Bool.eqb map fst]; rewrite IH; reflexivity.
+Qed.
+
+Lemma nth_error_eq_nth {A} (l : list A) i j d :
+  i < length l -> nth_error l i = nth_error l j -> nth i l d = nth j l d.
+Proof.
+  intros Hi H. destruct (nth_error l i) eqn:E; [|apply nth_error_None in E; lia].
+  rewrite (nth_error_nth _ _ d E). symmetry in H. rewrite (nth_error_nth _ _ d H). reflexivity.
+Qed.
+
+Lemma filter_none {A} (f : A -> bool) l : (forall x, In x l -> f x = false) -> filter f l = [].
+Proof.
+  induction l as [|x l IH]; intros H; [reflexivity|]. cbn [filter].
+  rewrite (H x (or_introl eq_refl)). apply IH. intros y Hy. apply H. right; exact Hy.
+Qed.
+
+(* while (end > begin && path[begin] == path[end]) --end; *)
+Lemma rdp_shrink_ok (p : path) : forall fuel begin end_,
+  begin <= end_ -> end_ < length p -> end_ - begin < fuel ->
+  exists e', rdp_shrink fuel p begin end_ = Ok e' /\ begin <= e' <= end_ /\
+             forall i, e' < i <= end_ -> nth_error p i = nth_error p begin.
+Proof.
+  induction fuel as [|fuel IH]; intros begin end_ Hbe He Hf; [lia|].
+  cbn [rdp_shrink]. destruct (begin <? end_) eqn:E.
+  - apply Nat.ltb_lt in E.
+    destruct (nth_error_lt_Some p begin ltac:(lia)) as [a Ha].
+    destruct (nth_error_lt_Some p end_ ltac:(lia)) as [b Hb].
+    rewrite (proj2 (rd_Ok _ _ _) Ha), (proj2 (rd_Ok _ _ _) Hb). cbn [bind].
+    destruct (pt_eqb a b) eqn:Eab.
+    + apply pt_eqb_eq in Eab; subst b.
+      destruct (IH begin (end_ - 1) ltac:(lia) ltac:(lia) ltac:(lia)) as (e' & H1 & H2 & H3).
+      exists e'. split; [exact H1|]. split; [lia|].
+      intros i Hi. destruct (Nat.eq_dec i end_) as [->|Hne]; [congruence|]. apply H3. lia.
+    + exists end_. split; [reflexivity|]. split; [lia|]. intros i Hi; lia.
+  - apply Nat.ltb_ge in E. exists end_. split; [reflexivity|]. split; [lia|]. intros i Hi; lia.
 Qed.
 
 Section Rdp.
@@ -31,33 +67,9 @@ Section Rdp.
   Variable eps : D.
   Hypothesis Heps : leD dzero eps = true.        (* 0 <= epsilon^2 *)
 
-  (* R: any property of the flags preserved by the two kinds of writes RDP performs *)
+  (* R: any property of the flags preserved by the only kind of write RDP performs (flags[i] = true) *)
   Variable R : list bool -> Prop.
   Hypothesis R_set : forall fl i fl', upd fl i true = Ok fl' -> R fl -> R fl'.
-  Hypothesis R_unset : forall fl b e fl' a,
-    b < e -> nth_error p b = Some a -> nth_error p e = Some a -> upd fl e false = Ok fl' -> R fl -> R fl'.
-
-  Lemma rdp_unflag_ok : forall fuel begin end_ fl,
-    begin <= end_ -> end_ < length p -> length fl = length p -> end_ - begin < fuel -> R fl ->
-    exists e' fl', rdp_unflag fuel p begin end_ fl = Ok (e', fl') /\ begin <= e' <= end_ /\
-                   length fl' = length p /\ R fl'.
-  Proof.
-    induction fuel as [|fuel IH]; intros begin end_ fl Hbe He Hl Hf HR; [lia|].
-    cbn [rdp_unflag]. destruct (begin <? end_) eqn:E.
-    - apply Nat.ltb_lt in E.
-      destruct (nth_error_lt_Some p begin ltac:(lia)) as [a Ha].
-      destruct (nth_error_lt_Some p end_ ltac:(lia)) as [b Hb].
-      rewrite (rd_Some _ _ _ Ha), (rd_Some _ _ _ Hb). cbn [bind].
-      destruct (pt_eqb a b) eqn:Eab.
-      + apply pt_eqb_eq in Eab; subst b.
-        destruct (upd_lt fl end_ false ltac:(lia)) as [fl1 Hu]. rewrite Hu. cbn [bind].
-        destruct (IH begin (end_ - 1) fl1 ltac:(lia) ltac:(lia)
-                    ltac:(rewrite (upd_length _ _ _ _ Hu); exact Hl) ltac:(lia)
-                    (R_unset _ _ _ _ _ E Ha Hb Hu HR)) as (e' & fl' & H1 & H2 & H3 & H4).
-        exists e', fl'. repeat split; try lia; assumption.
-      + exists end_, fl. repeat split; try lia; assumption.
-    - apply Nat.ltb_ge in E. exists end_, fl. repeat split; try lia; assumption.
-  Qed.
 
   Lemma rdp_scan_ok begin end_ : begin < length p -> end_ < length p ->
     forall n i idx m, n = 0 \/ i + n <= end_ ->
@@ -82,8 +94,11 @@ Section Rdp.
   Proof.
     induction fuel as [|fuel IH]; intros begin end_ fl Hbe He Hl Hf HR; [lia|].
     cbn [rdp].
-    destruct (rdp_unflag_ok (S (length p)) begin end_ fl Hbe He Hl ltac:(lia) HR) as (e1 & fl1 & H1 & H2 & H3 & H4).
+    destruct (rdp_shrink_ok p (S (length p)) begin end_ Hbe He ltac:(lia)) as (e1 & H1 & H2 & _).
     rewrite H1. cbn [bind].
+    destruct (upd_lt fl e1 true ltac:(lia)) as [fl1 Hu1]. rewrite Hu1. cbn [bind].
+    assert (H3 : length fl1 = length p) by (rewrite (upd_length _ _ _ _ Hu1); exact Hl).
+    assert (H4 : R fl1) by (eapply R_set; eassumption).
     destruct (rdp_scan_ok begin e1 ltac:(lia) ltac:(lia) (e1 - (begin + 1)) (begin + 1) 0 dzero ltac:(lia))
       as (idx & m & S1 & S2).
     rewrite S1. cbn [bind].
@@ -111,17 +126,16 @@ Section RdpThm.
 
   Lemma rdp_flags_ok p (R : list bool -> Prop) : 5 <= length p ->
     (forall fl i fl', upd fl i true = Ok fl' -> R fl -> R fl') ->
-    (forall fl b e fl' a, b < e -> nth_error p b = Some a -> nth_error p e = Some a -> upd fl e false = Ok fl' -> R fl -> R fl') ->
     (forall fl, length fl = length p -> flagged fl 0 -> flagged fl (length p - 1) -> R fl) ->
     exists fl, rdp_flags D d2 leD dzero p eps = Ok fl /\ length fl = length p /\ R fl.
   Proof.
-    intros Hlen R1 R2 R0. unfold rdp_flags.
+    intros Hlen R1 R0. unfold rdp_flags.
     destruct (upd_lt (repeat false (length p)) 0 true ltac:(rewrite repeat_length; lia)) as [f1 Hu1].
     rewrite Hu1. cbn [bind].
     assert (Hl1 : length f1 = length p) by (rewrite (upd_length _ _ _ _ Hu1); apply repeat_length).
     destruct (upd_lt f1 (length p - 1) true ltac:(lia)) as [f2 Hu2]. rewrite Hu2. cbn [bind].
     assert (Hl2 : length f2 = length p) by (rewrite (upd_length _ _ _ _ Hu2); exact Hl1).
-    apply (rdp_ok D d2 leD dzero p eps Heps R R1 R2); try lia.
+    apply (rdp_ok D d2 leD dzero p eps Heps R R1); try lia.
     apply R0; [exact Hl2| |].
     - unfold flagged. rewrite (upd_nth_other _ _ _ _ _ Hu2) by lia. eapply upd_nth_same; exact Hu1.
     - unfold flagged. eapply upd_nth_same; exact Hu2.
@@ -135,50 +149,23 @@ Section RdpThm.
     rewrite Hf. cbn [bind]. rewrite collect_full by exact Hl. eauto.
   Qed.
 
-  Lemma select_true_hd (p : path) fl a t : p = a :: t -> length fl = length p -> flagged fl 0 ->
-    hd_pt (select true p fl) = Some a.
+  Lemma flagged_set fl i fl' j : upd fl i true = Ok fl' -> flagged fl j -> flagged fl' j.
   Proof.
-    intros -> Hl H0. destruct fl as [|f fl]; [discriminate|]. unfold flagged in H0. cbn in H0. inversion H0; subst.
-    reflexivity.
+    intros Hu H. unfold flagged in *. destruct (Nat.eq_dec j i) as [->|Hn].
+    - eapply upd_nth_same; exact Hu.
+    - rewrite (upd_nth_other _ _ _ _ _ Hu) by exact Hn. exact H.
   Qed.
 
-  (* the first vertex is always kept *)
-  Theorem rdp_keeps_first p : 1 <= length p ->
-    exists r, rdp_gen D d2 leD dzero p eps = Ok r /\ hd_pt r = hd_pt p.
-  Proof.
-    intros Hlen. unfold rdp_gen. destruct (length p <? 5) eqn:E; [eauto|]. apply Nat.ltb_ge in E.
-    destruct (rdp_flags_ok p (fun fl => flagged fl 0) E) as (fl & Hf & Hl & H0).
-    - intros fl i fl' Hu H. unfold flagged in *. destruct (Nat.eq_dec i 0) as [->|Hn].
-      + eapply upd_nth_same; exact Hu.
-      + rewrite (upd_nth_other _ _ _ _ _ Hu) by lia. exact H.
-    - intros fl b e fl' a Hbe _ _ Hu H. unfold flagged in *.
-      rewrite (upd_nth_other _ _ _ _ _ Hu) by lia. exact H.
-    - auto.
-    - rewrite Hf. cbn [bind]. rewrite collect_full by exact Hl. eexists; split; [reflexivity|].
-      destruct p as [|a t]; [cbn in Hlen; lia|]. eapply select_true_hd; eauto.
-  Qed.
-
-  (* both end points are kept when no earlier vertex coincides with the last one
-     (partial: the unconditional statement is refuted below) *)
-  Theorem rdp_keeps_ends_partial p : 2 <= length p ->
-    (forall i a, i < length p - 1 -> nth_error p i = Some a -> nth_error p (length p - 1) <> Some a) ->
+  (* both end vertices are kept, for every path *)
+  Theorem rdp_keeps_ends p :
     exists r, rdp_gen D d2 leD dzero p eps = Ok r /\ keeps_ends r p = true.
   Proof.
-    intros Hlen Hdistinct. unfold rdp_gen. destruct (length p <? 5) eqn:E.
-    - exists p. split; [reflexivity|]. destruct p as [|a t]; [cbn in Hlen; lia|].
+    unfold rdp_gen. destruct (length p <? 5) eqn:E.
+    - exists p. split; [reflexivity|]. destruct p as [|a t]; [reflexivity|].
       unfold keeps_ends, hd_pt, last_pt, opt_pt_eqb. rewrite !pt_eqb_refl. reflexivity.
     - apply Nat.ltb_ge in E.
       destruct (rdp_flags_ok p (fun fl => flagged fl 0 /\ flagged fl (length p - 1)) E) as (fl & Hf & Hl & H0 & Hh).
-      + intros fl i fl' Hu [H1 H2]. unfold flagged in *. split.
-        * destruct (Nat.eq_dec i 0) as [->|Hn]; [eapply upd_nth_same; exact Hu|].
-          rewrite (upd_nth_other _ _ _ _ _ Hu) by lia. exact H1.
-        * destruct (Nat.eq_dec i (length p - 1)) as [->|Hn]; [eapply upd_nth_same; exact Hu|].
-          rewrite (upd_nth_other _ _ _ _ _ Hu) by lia. exact H2.
-      + intros fl b e fl' a Hbe Hb He Hu [H1 H2]. unfold flagged in *.
-        assert (He' : e < length p) by (apply nth_error_Some; congruence).
-        assert (e <> length p - 1).
-        { intros ->. eapply (Hdistinct b a); [lia|exact Hb|exact He]. }
-        split; rewrite (upd_nth_other _ _ _ _ _ Hu) by lia; assumption.
+      + intros fl i fl' Hu [H1 H2]. split; eapply flagged_set; eassumption.
       + auto.
       + rewrite Hf. cbn [bind]. rewrite collect_full by exact Hl. eexists; split; [reflexivity|].
         (* select true = select false on negated flags; reuse the end point lemma *)
@@ -191,28 +178,248 @@ Section RdpThm.
   Qed.
 End RdpThm.
 
-(* ------------------------------------------------------------------ refutations on the code's own binary64 functions *)
-(* a path that ends where it starts: the loop `while (end > begin && path[begin] == path[end]) flags[end--] = false;`
-   un-keeps the last vertex and never keeps the new end *)
-Definition rdp_witness : path := [(0, 0); (10, 10); (20, 0); (30, 10); (40, 0); (0, 0)]%Z.
+(* ------------------------------------------------------------------ the distance bound *)
+Section RdpBound.
+  Variable D : Type.
+  Variable d2 : pt -> pt -> pt -> D.
+  Variable leD : D -> D -> bool.
+  Variable dzero : D.
+  Variable p : path.
+  Variable eps : D.
+  Hypothesis Heps : leD dzero eps = true.
+  (* leD is a total preorder on the values that compare <= to themselves (binary64: everything but NaN) *)
+  Hypothesis Hrefl0 : leD dzero dzero = true.
+  Hypothesis Htrans : forall a b c, leD a b = true -> leD b c = true -> leD a c = true.
+  Hypothesis Htotal : forall a b, leD a a = true -> leD b b = true -> leD a b = false -> leD b a = true.
+  (* no distance between vertices of the path is NaN *)
+  Hypothesis Hnn : forall a b c, In a p -> In b p -> In c p -> leD (d2 a b c) (d2 a b c) = true.
+  (* a vertex that coincides with the far end of the chord is within epsilon of it *)
+  Hypothesis Hsame : forall x a, In x p -> In a p -> leD (d2 x a x) eps = true.
 
-Theorem rdp_keeps_ends_refuted :
-  exists p eps, 2 <= length p /\ (0 <=? eps)%float = true /\
-    exists r, rdp_path p eps = Ok r /\ keeps_ends r p = false.
-Proof.
-  exists rdp_witness, 1%float. split; [cbn; lia|]. split; [reflexivity|].
-  exists [(0, 0); (10, 10); (20, 0); (30, 10)]%Z. split; vm_compute; reflexivity.
-Qed.
+  Definition pn (i : nat) : pt := nth i p (0, 0)%Z.
 
-(* ... and a removed vertex ((40,0), index 4) is 40 units from the line through its surviving neighbour(s):
-   the spec predicate reports the removed vertices 4 and 5.
-   (The loop can only fire in the top-level call: a split vertex has a non-zero distance from the chord, so it
-   never coincides with an end of its sub-range.  The failure mode is therefore exactly "first == last".) *)
-Theorem rdp_bound_refuted :
-  exists p eps, (0 <=? eps)%float = true /\
-    exists fl, rdp_path_flags p eps = Ok fl /\ rdp_bad_f p fl eps <> [].
+  Lemma pn_In i : i < length p -> In (pn i) p.
+  Proof. intros H. apply nth_In. exact H. Qed.
+
+  Lemma rd_pn i : i < length p -> rd p i = Ok (pn i).
+  Proof. intros H. apply rd_nth. exact H. Qed.
+
+  (* a, b are kept, everything strictly between is removed and within eps of the line through p[a], p[b] *)
+  Definition seg_ok (fl : list bool) (a b : nat) : Prop :=
+    a < b /\ b < length p /\ flagged fl a /\ flagged fl b /\
+    forall i, a < i < b -> unflagged fl i /\ leD (d2 (pn i) (pn a) (pn b)) eps = true.
+
+  Inductive covered (fl : list bool) : nat -> nat -> Prop :=
+  | cov_refl a : flagged fl a -> covered fl a a
+  | cov_seg a b : seg_ok fl a b -> covered fl a b
+  | cov_split a m b : covered fl a m -> covered fl m b -> covered fl a b.
+
+  Lemma covered_le fl a b : covered fl a b -> a <= b.
+  Proof. induction 1 as [a H|a b H|a m b _ IH1 _ IH2]; [lia|destruct H; lia|lia]. Qed.
+
+  Lemma covered_ext fl fl' a b :
+    covered fl a b -> (forall i, a <= i <= b -> nth_error fl' i = nth_error fl i) -> covered fl' a b.
+  Proof.
+    induction 1 as [a H|a b H|a m b H1 IH1 H2 IH2]; intros Hext.
+    - apply cov_refl. unfold flagged in *. rewrite Hext by lia. exact H.
+    - apply cov_seg. destruct H as (H1 & H2 & H3 & H4 & H5). unfold seg_ok, flagged, unflagged in *.
+      split; [exact H1|]. split; [exact H2|]. split; [rewrite Hext by lia; exact H3|].
+      split; [rewrite Hext by lia; exact H4|].
+      intros i Hi. rewrite Hext by lia. apply H5; exact Hi.
+    - pose proof (covered_le _ _ _ H1). pose proof (covered_le _ _ _ H2).
+      eapply cov_split; [apply IH1|apply IH2]; intros i Hi; apply Hext; lia.
+  Qed.
+
+  Lemma covered_first fl a c : covered fl a c -> a = c \/ exists b, seg_ok fl a b /\ covered fl b c.
+  Proof.
+    induction 1 as [a H|a b H|a m b H1 IH1 H2 IH2].
+    - left; reflexivity.
+    - right. exists b. split; [exact H|]. apply cov_refl. apply H.
+    - destruct IH1 as [->|(b' & Hs & Hc)]; [exact IH2|].
+      right. exists b'. split; [exact Hs|]. eapply cov_split; eassumption.
+  Qed.
+
+  (* the scan: the final maximum dominates every distance of the range *)
+  Lemma rdp_scan_bound b e : b < length p -> e < length p ->
+    forall n i idx m, n = 0 \/ i + n <= e -> leD m m = true ->
+    exists idx' m', rdp_scan D d2 leD n i p b e idx m = Ok (idx', m') /\
+      leD m m' = true /\ leD m' m' = true /\
+      (forall j, i <= j < i + n -> leD (d2 (pn j) (pn b) (pn e)) m' = true) /\
+      ((idx' = idx /\ m' = m) \/ i <= idx' < i + n).
+  Proof.
+    intros Hb He. induction n as [|n IH]; intros i idx m Hn Hm; cbn [rdp_scan].
+    - exists idx, m. split; [reflexivity|]. split; [exact Hm|]. split; [exact Hm|].
+      split; [intros j Hj; lia|left; auto].
+    - destruct Hn as [Hn|Hn]; [discriminate|].
+      rewrite (rd_pn i) by lia. rewrite (rd_pn b Hb), (rd_pn e He). cbn [bind].
+      set (d := d2 (pn i) (pn b) (pn e)).
+      assert (Hd : leD d d = true) by (apply Hnn; apply pn_In; lia).
+      destruct (leD d m) eqn:E.
+      + destruct (IH (S i) idx m ltac:(lia) Hm) as (idx' & m' & H1 & H2 & H3 & H4 & H5).
+        exists idx', m'. split; [exact H1|]. split; [exact H2|]. split; [exact H3|]. split.
+        * intros j Hj. destruct (Nat.eq_dec j i) as [->|Hne]; [eapply Htrans; eassumption|apply H4; lia].
+        * destruct H5; [left; assumption|right; lia].
+      + pose proof (Htotal d m Hd Hm E) as Hmd.
+        destruct (IH (S i) i d ltac:(lia) Hd) as (idx' & m' & H1 & H2 & H3 & H4 & H5).
+        exists idx', m'. split; [exact H1|]. split; [eapply Htrans; eassumption|]. split; [exact H3|]. split.
+        * intros j Hj. destruct (Nat.eq_dec j i) as [->|Hne]; [exact H2|apply H4; lia].
+        * right. destruct H5 as [[-> _]|]; lia.
+  Qed.
+
+  Lemma seg_ok_adjacent fl a : S a < length p -> flagged fl a -> flagged fl (S a) -> seg_ok fl a (S a).
+  Proof. intros H1 H2 H3. repeat split; try assumption; try lia; intros; lia. Qed.
+
+  (* the recursion: the range [b, e] ends up partitioned into segments that satisfy the bound; nothing outside
+     the open range (b, e) is written *)
+  Lemma rdp_cov : forall fuel b e fl,
+    b <= e -> e < length p -> length fl = length p -> e - b < fuel ->
+    flagged fl b -> flagged fl e -> (forall i, b < i < e -> unflagged fl i) ->
+    exists fl', rdp D d2 leD dzero fuel p b e eps fl = Ok fl' /\ length fl' = length p /\
+      (forall i, i <= b \/ e <= i -> nth_error fl' i = nth_error fl i) /\ covered fl' b e.
+  Proof.
+    induction fuel as [|fuel IH]; intros b e fl Hbe He Hl Hf Hfb Hfe Hun; [lia|].
+    cbn [rdp].
+    destruct (rdp_shrink_ok p (S (length p)) b e Hbe He ltac:(lia)) as (e1 & Hs & He1 & Hdup).
+    rewrite Hs. cbn [bind].
+    destruct (upd_lt fl e1 true ltac:(lia)) as [fl1 Hu1]. rewrite Hu1. cbn [bind].
+    assert (Hl1 : length fl1 = length p) by (rewrite (upd_length _ _ _ _ Hu1); exact Hl).
+    assert (Hfe1 : flagged fl1 e1) by (eapply upd_nth_same; exact Hu1).
+    assert (Hframe1 : forall i, i <= b \/ e <= i -> nth_error fl1 i = nth_error fl i).
+    { intros i Hi. destruct (Nat.eq_dec i e1) as [->|Hne].
+      - rewrite Hfe1. symmetry. destruct Hi; [replace e1 with b by lia; exact Hfb|replace e1 with e by lia; exact Hfe].
+      - eapply upd_nth_other; eassumption. }
+    assert (Hfb1 : flagged fl1 b) by (unfold flagged; rewrite Hframe1 by lia; exact Hfb).
+    assert (Hfee : flagged fl1 e) by (unfold flagged; rewrite Hframe1 by lia; exact Hfe).
+    assert (Hun1 : forall i, b < i < e -> i <> e1 -> unflagged fl1 i).
+    { intros i Hi Hne. eapply unflagged_upd_other; [exact Hu1|exact Hne|apply Hun; exact Hi]. }
+    (* the trailing copies of p[b] *)
+    assert (Htail : covered fl1 e1 e).
+    { destruct (Nat.eq_dec e1 e) as [->|Hne]; [apply cov_refl; exact Hfe1|].
+      apply cov_seg. split; [lia|]. split; [exact He|]. split; [exact Hfe1|]. split; [exact Hfee|].
+      intros i Hi. split; [apply Hun1; lia|].
+      assert (Hpi : pn i = pn e).
+      { unfold pn. apply nth_error_eq_nth; [lia|]. rewrite (Hdup i) by lia. rewrite (Hdup e) by lia. reflexivity. }
+      rewrite Hpi. apply Hsame; apply pn_In; lia. }
+    destruct (rdp_scan_bound b e1 ltac:(lia) ltac:(lia) (e1 - (b + 1)) (b + 1) 0 dzero ltac:(lia) Hrefl0)
+      as (idx & m & S1 & _ & Hmm & Hall & Hidx).
+    rewrite S1. cbn [bind].
+    destruct (leD m eps) eqn:Em.
+    - (* leaf *)
+      exists fl1. split; [reflexivity|]. split; [exact Hl1|]. split; [exact Hframe1|].
+      eapply cov_split; [|exact Htail].
+      destruct (Nat.eq_dec b e1) as [<-|Hne]; [apply cov_refl; exact Hfb1|].
+      apply cov_seg. split; [lia|]. split; [lia|]. split; [exact Hfb1|]. split; [exact Hfe1|].
+      intros i Hi. split; [apply Hun1; lia|]. eapply Htrans; [apply Hall; lia|exact Em].
+    - destruct Hidx as [[-> ->]|Hidx]; [rewrite Heps in Em; discriminate|].
+      destruct (upd_lt fl1 idx true ltac:(lia)) as [fl2 Hu2]. rewrite Hu2. cbn [bind].
+      assert (Hl2 : length fl2 = length p) by (rewrite (upd_length _ _ _ _ Hu2); exact Hl1).
+      assert (Hfi2 : flagged fl2 idx) by (eapply upd_nth_same; exact Hu2).
+      assert (Hframe2 : forall i, i <> idx -> nth_error fl2 i = nth_error fl1 i).
+      { intros i Hi. eapply upd_nth_other; eassumption. }
+      assert (Hleft : exists fl3,
+        (if b + 1 <? idx then rdp D d2 leD dzero fuel p b idx eps fl2 else Ok fl2) = Ok fl3 /\
+        length fl3 = length p /\ (forall i, i <= b \/ idx <= i -> nth_error fl3 i = nth_error fl2 i) /\
+        covered fl3 b idx).
+      { destruct (b + 1 <? idx) eqn:E.
+        - apply Nat.ltb_lt in E. apply IH; try lia; try assumption.
+          + unfold flagged. rewrite Hframe2 by lia. exact Hfb1.
+          + intros i Hi. unfold unflagged. rewrite Hframe2 by lia. apply Hun1; lia.
+        - apply Nat.ltb_ge in E. exists fl2. split; [reflexivity|]. split; [exact Hl2|]. split; [auto|].
+          replace idx with (S b) in * by lia. apply cov_seg, seg_ok_adjacent; [lia| |exact Hfi2].
+          unfold flagged. rewrite Hframe2 by lia. exact Hfb1. }
+      destruct Hleft as (fl3 & -> & Hl3 & Hframe3 & Hcov3). cbn [bind].
+      destruct (e1 =? 0) eqn:E0; [apply Nat.eqb_eq in E0; lia|].
+      assert (Hfi3 : flagged fl3 idx) by (unfold flagged; rewrite Hframe3 by lia; exact Hfi2).
+      assert (Hfe3 : flagged fl3 e1) by (unfold flagged; rewrite Hframe3, Hframe2 by lia; exact Hfe1).
+      assert (Hright : exists fl4,
+        (if idx <? e1 - 1 then rdp D d2 leD dzero fuel p idx e1 eps fl3 else Ok fl3) = Ok fl4 /\
+        length fl4 = length p /\ (forall i, i <= idx \/ e1 <= i -> nth_error fl4 i = nth_error fl3 i) /\
+        covered fl4 idx e1).
+      { destruct (idx <? e1 - 1) eqn:E.
+        - apply Nat.ltb_lt in E. apply IH; try lia; try assumption.
+          intros i Hi. unfold unflagged. rewrite Hframe3, Hframe2 by lia. apply Hun1; lia.
+        - apply Nat.ltb_ge in E. exists fl3. split; [reflexivity|]. split; [exact Hl3|]. split; [auto|].
+          replace e1 with (S idx) in * by lia. apply cov_seg, seg_ok_adjacent; [lia|exact Hfi3|exact Hfe3]. }
+      destruct Hright as (fl4 & -> & Hl4 & Hframe4 & Hcov4).
+      exists fl4. split; [reflexivity|]. split; [exact Hl4|]. split.
+      + intros i Hi. rewrite Hframe4, Hframe3, Hframe2 by lia. apply Hframe1; exact Hi.
+      + eapply cov_split; [|eapply cov_split; [exact Hcov4|]].
+        * eapply covered_ext; [exact Hcov3|]. intros i Hi. apply Hframe4. lia.
+        * eapply covered_ext; [exact Htail|]. intros i Hi. rewrite Hframe4, Hframe3, Hframe2 by lia. reflexivity.
+  Qed.
+
+  Lemma rdp_flags_cov : 5 <= length p ->
+    exists fl, rdp_flags D d2 leD dzero p eps = Ok fl /\ length fl = length p /\ covered fl 0 (length p - 1).
+  Proof.
+    intros Hlen. unfold rdp_flags.
+    destruct (upd_lt (repeat false (length p)) 0 true ltac:(rewrite repeat_length; lia)) as [f1 Hu1].
+    rewrite Hu1. cbn [bind].
+    assert (Hl1 : length f1 = length p) by (rewrite (upd_length _ _ _ _ Hu1); apply repeat_length).
+    destruct (upd_lt f1 (length p - 1) true ltac:(lia)) as [f2 Hu2]. rewrite Hu2. cbn [bind].
+    assert (Hl2 : length f2 = length p) by (rewrite (upd_length _ _ _ _ Hu2); exact Hl1).
+    destruct (rdp_cov (S (length p)) 0 (length p - 1) f2 ltac:(lia) ltac:(lia) Hl2 ltac:(lia))
+      as (fl & H1 & H2 & _ & H4).
+    - unfold flagged. rewrite (upd_nth_other _ _ _ _ _ Hu2) by lia. eapply upd_nth_same; exact Hu1.
+    - unfold flagged. eapply upd_nth_same; exact Hu2.
+    - intros i Hi. unfold unflagged. rewrite (upd_nth_other _ _ _ _ _ Hu2) by lia.
+      rewrite (upd_nth_other _ _ _ _ _ Hu1) by lia. apply unflagged_repeat. lia.
+    - exists fl. auto.
+  Qed.
+
+  (* ---- from the partition to the executable specification predicate [rdp_bad] ---- *)
+  Definition pend (a i : nat) : list (nat * pt) := map (fun j => (j, pn j)) (seq (S a) (i - S a)).
+
+  Lemma pend_snoc a i : a < i -> pend a (S i) = pend a i ++ [(i, pn i)].
+  Proof.
+    intros H. unfold pend. replace (S i - S a) with (S (i - S a)) by lia.
+    rewrite seq_S, map_app. cbn [map]. replace (S a + (i - S a)) with i by lia. reflexivity.
+  Qed.
+
+  Lemma bad_walk fl : length fl = length p ->
+    forall k i a b, length p - i = k -> a < i -> i <= b -> seg_ok fl a b -> covered fl b (length p - 1) ->
+    rdp_bad_aux D d2 leD i (skipn i p) (skipn i fl) (Some (pn a)) (pend a i) eps = [].
+  Proof.
+    intros Hl. induction k as [k IH] using lt_wf_ind. intros i a b Hk Hai Hib Hseg Hcov.
+    pose proof Hseg as (Hab & Hbl & Hfa & Hfb & Hint).
+    assert (Hpi : nth_error p i = Some (pn i)) by (apply nth_error_nth'; lia).
+    rewrite (skipn_nth_cons p i _ Hpi).
+    destruct (Nat.eq_dec i b) as [->|Hne].
+    - rewrite (skipn_nth_cons fl b true Hfb). cbn [rdp_bad_aux].
+      rewrite filter_none; [cbn [map app]|].
+      + destruct (covered_first _ _ _ Hcov) as [Heq|(b' & Hseg' & Hcov')].
+        * rewrite (skipn_all2 p) by lia. reflexivity.
+        * change (@nil (nat * pt)) with (map (fun j => (j, pn j)) (seq (S b) 0)).
+          replace 0 with (S b - S b) by lia. fold (pend b (S b)).
+          apply (IH (length p - S b) ltac:(lia) (S b) b b'); try lia; try assumption. destruct Hseg'; lia.
+      + intros [j x] Hin. unfold pend in Hin. apply in_map_iff in Hin as (j' & Hj' & Hin).
+        inversion Hj'; subst. apply in_seq in Hin. cbn [snd].
+        destruct (Hint j ltac:(lia)) as (_ & Hle). rewrite Hle. reflexivity.
+    - destruct (Hint i ltac:(lia)) as (Hui & _).
+      rewrite (skipn_nth_cons fl i false Hui). cbn [rdp_bad_aux].
+      rewrite <- pend_snoc by lia.
+      apply (IH (length p - S i) ltac:(lia) (S i) a b); try lia; assumption.
+  Qed.
+
+  Theorem rdp_bound_gen fl : 5 <= length p ->
+    rdp_flags D d2 leD dzero p eps = Ok fl -> rdp_bad D d2 leD p fl eps = [].
+  Proof.
+    intros Hlen Hfl. destruct (rdp_flags_cov Hlen) as (fl0 & H1 & Hl & Hcov).
+    rewrite Hfl in H1. inversion H1; subst fl0. clear H1.
+    destruct (covered_first _ _ _ Hcov) as [Heq|(b & Hseg & Hcov')]; [lia|].
+    pose proof Hseg as (Hab & Hbl & Hf0 & _).
+    unfold rdp_bad.
+    assert (Hp0 : nth_error p 0 = Some (pn 0)) by (apply nth_error_nth'; lia).
+    pose proof (skipn_nth_cons p 0 _ Hp0) as Hp. pose proof (skipn_nth_cons fl 0 true Hf0) as Hf.
+    cbn [skipn] in Hp, Hf. rewrite Hp at 1. rewrite Hf at 1. cbn [rdp_bad_aux map app].
+    change (@nil (nat * pt)) with (pend 0 1).
+    apply (bad_walk fl Hl (length p - 1) 1 0 b); try lia; assumption.
+  Qed.
+End RdpBound.
+
+(* paths of fewer than 5 points are returned unchanged: nothing is removed *)
+Lemma rdp_bad_all_true D d2 leD (eps : D) : forall l i lastk,
+  rdp_bad_aux D d2 leD i l (repeat true (length l)) lastk [] eps = [].
 Proof.
-  exists rdp_witness, 1%float. split; [reflexivity|].
-  exists [true; true; true; true; false; false]. split; [vm_compute; reflexivity|].
-  intros H; vm_compute in H; discriminate H.
+  induction l as [|x l IH]; intros i lastk; [reflexivity|].
+  cbn [length repeat rdp_bad_aux]. destruct lastk; cbn [map filter app]; apply IH.
 Qed.
